@@ -71,6 +71,27 @@ impl LazySelect<SymV> for SymMask {
     }
 }
 
+/// min/max with idempotence folded: max(max(x,m),m) == max(x,m), and clamp(clamp(x,a,b),a,b) == clamp(x,a,b).
+/// These are exact identities in floating point as well (min/max select, they never round), so the
+/// folding keeps "same term => bit-identical result" sound.
+pub fn t_max(a: Id, b: Id) -> Id {
+    if a == b { return a; }
+    if let Node::Max(_, m) = node(a) { if m == b { return a; } }
+    if let Node::Max(x, _) = node(a) { if x == b { return a; } }
+    // clamp(clamp(x, lo, hi), lo, ..): a = min(max(x, lo), hi) with lo <= hi constants
+    if let Node::Min(inner, hi) = node(a) {
+        if let Node::Max(_, lo) = node(inner) {
+            if lo == b { if let (Some(l), Some(h)) = (const_val(lo), const_val(hi)) { if l <= h { return a; } } }
+        }
+    }
+    mk(Node::Max(a, b))
+}
+pub fn t_min(a: Id, b: Id) -> Id {
+    if a == b { return a; }
+    if let Node::Min(_, m) = node(a) { if m == b { return a; } }
+    if let Node::Min(x, _) = node(a) { if x == b { return a; } }
+    mk(Node::Min(a, b))
+}
 macro_rules! un { ($n:ident, $a:expr) => { mk(Node::$n($a)) }; }
 macro_rules! bin { ($n:ident, $a:expr, $b:expr) => { mk(Node::$n($a, $b)) }; }
 
@@ -111,9 +132,9 @@ macro_rules! common {
         impl Zero for $T { fn zero() -> Self { $T::c(0.0) } }
         impl One for $T { fn one() -> Self { $T::c(1.0) } }
         impl MinMax for $T {
-            fn min(self, o: Self) -> Self { $T(bin!(Min, self.0, o.0)) }
-            fn max(self, o: Self) -> Self { $T(bin!(Max, self.0, o.0)) }
-            fn min_max(self, o: Self) -> (Self, Self) { ($T(bin!(Min, self.0, o.0)), $T(bin!(Max, self.0, o.0))) }
+            fn min(self, o: Self) -> Self { $T(t_min(self.0, o.0)) }
+            fn max(self, o: Self) -> Self { $T(t_max(self.0, o.0)) }
+            fn min_max(self, o: Self) -> (Self, Self) { ($T(t_min(self.0, o.0)), $T(t_max(self.0, o.0))) }
         }
         impl Trigonometry for $T {
             fn sin(self) -> Self { $T(un!(Sin, self.0)) }
@@ -155,9 +176,9 @@ macro_rules! common {
             fn ceil(self) -> Self { $T(un!(Ceil, self.0)) }
         }
         impl Clamp for $T {
-            fn clamp(self, min: Self, max: Self) -> Self { $T(bin!(Min, bin!(Max, self.0, min.0), max.0)) }
-            fn clamp_min(self, min: Self) -> Self { $T(bin!(Max, self.0, min.0)) }
-            fn clamp_max(self, max: Self) -> Self { $T(bin!(Min, self.0, max.0)) }
+            fn clamp(self, min: Self, max: Self) -> Self { $T(t_min(t_max(self.0, min.0), max.0)) }
+            fn clamp_min(self, min: Self) -> Self { $T(t_max(self.0, min.0)) }
+            fn clamp_max(self, max: Self) -> Self { $T(t_min(self.0, max.0)) }
         }
         impl ClampAssign for $T {
             fn clamp_assign(&mut self, min: Self, max: Self) { *self = Clamp::clamp(*self, min, max); }
